@@ -25,6 +25,8 @@ func checkC16(c *Ctx) {
 	c.checkForcedDownload()
 	c.checkPathProvenance()
 	c.checkAttachmentLinking()
+	c.checkForcedDownloadUnderMime()
+	c.checkAvatarLinkOnlyWithDesc()
 }
 
 func isHTTPHandler(fn *ssa.Function) bool {
